@@ -13,6 +13,7 @@ open Aqv Aqv.Proto Aqv.TxSign
     json <tx9>                                      -> 9 JSON string fields (S<hex> | N)
     unjson <9 fields>                               -> ok <tx9> | err
     cache <signer;signer;...> <tx9> <recO>          -> answers joined by |
+    life <tx9> <op;op;...> <recO>                   -> observations joined by |  (ops: h, z, s=<signer>, w=<signer>,<r>,<s>,<rid>)
     prot <v>                                        -> <0|1> <chainId>
     mk <homesteadBlock|-> <eip155Block|-> <chainId> <number|->   -> F | H | E:<chainId>
   secp256k1 is instantiated with the values supplied by the harness (recO: hash:r:s:rid=addr|err, signO: hash=r:s:rid);
@@ -169,6 +170,32 @@ def handle (l : String) : String :=
        let m := "|".intercalate ((senderSeq E kec t none qs).map (renderSender "_"))
        verdict m go false "cached-sender-differs-from-model"
      | _, _, _ => "bad-op\tspec-ok")
+  | "life" :: rest =>
+    -- object lifetime: ops = h | z | s=<signer> | w=<signer>,<r>,<s>,<rid> joined by ';'
+    (match parseTx (rest.take 9), rest.drop 9 with
+     | some t, [opsS, recO] =>
+       let parseOp (o : String) : Option Op :=
+         if o == "h" then some .hash else if o == "z" then some .size else
+         match splitC o '=' with
+         | ["s", sg] => (parseSigner sg).map .sender
+         | ["w", a] => (match splitC a ',' with
+           | [sg, r, s, rid] => (match parseSigner sg, hexNat r, hexNat s, rid.toNat? with
+             | some sg, some r, some s, some rid => some (.withSig sg r s rid)
+             | _, _, _, _ => none)
+           | _ => none)
+         | _ => none
+       (match (splitC opsS ';').mapM parseOp with
+        | some ops =>
+          let E := mkEcdsa (parseRec recO) none []
+          let render : Obs → String
+            | .hash h => "h:" ++ hexOfBytes h
+            | .size n => s!"z:{n}"
+            | .sender r => renderSender "_" r
+            | .resigned => "w"
+          let m := "|".intercalate ((runOps E kec (TxObj.fresh t) ops).map render)
+          verdict m go false "object-lifetime-observation-differs-from-model"
+        | none => "bad-op\tspec-ok")
+     | _, _ => "bad-op\tspec-ok")
   | ["prot", v] =>
     (match hexNat v with
      | some v => verdict ((if isProtectedV v then "1 " else "0 ") ++ natHex (deriveChainId v)) go false "protected/chain-id-differs-from-model"
